@@ -26,7 +26,7 @@ LEVEL = "exploration"
 RULE = (
     "Hypothesis lists (<=30 ops quick, <=60 thorough) over set / set(replace) / []= / del / get (with and "
     "without default) / [] / in / is_group / add_group (dict or container; index -1, 0, middle, past the end) "
-    "/ set_group / get_group_list / get_group_by_index / get_group_by_tag / query / items / == (against an "
+    "/ set_group / get_group_list / get_group_by_index / get_group_by_tag (also with (tag, value) taken from the content, and items sharing a value) / query / items / == (against an "
     "independently rebuilt equal container, single-change near misses incl. rendering look-alikes, plain "
     "dicts with and without the four framing tags) / pickle round trip / constructor from dict with lists / "
     "non-integer tags; tags from a colliding pool spelled as int, decimal str and FTag member; values str "
@@ -106,6 +106,9 @@ op = st.one_of(
     st.tuples(st.just("glist"), tagspec),
     st.tuples(st.just("gindex"), tagspec, st.sampled_from([-1, 0, 1, 2, 5])),
     st.tuples(st.just("gtag"), tagspec, st.sampled_from([448, 447, 58, 1]), st.sampled_from(VALS_S[:6] + ["7"])),
+    st.tuples(st.just("dup"), st.integers(0, 10**6), index),
+    st.tuples(st.just("gtag_m"), st.integers(0, 10**6)),
+    st.tuples(st.just("gtag_m"), st.integers(0, 10**6)),
     st.tuples(st.just("query"), st.lists(tagspec, max_size=3)),
     st.tuples(st.just("items")),
     st.tuples(st.just("eq"), st.integers(0, 10**6)),
@@ -305,6 +308,23 @@ def run_history(ops, record):
     for o in ops:
         kind = o[0]
         classes.add(kind)
+        if kind in ("dup", "gtag_m"):
+            # resolved against the model: a further item sharing one member (tag, value) with an existing item of a group /
+            # a lookup by a (tag, value) that some item really holds
+            cands = [(ts_, k_, mt, mv) for ts_, items_ in model if isinstance(items_, list)
+                     for k_, itm_ in enumerate(items_) for mt, mv in itm_ if not isinstance(mv, list)]
+            if not cands:
+                continue
+            ts_, k_, mt, mv = cands[o[1] % len(cands)]
+            if kind == "dup":
+                other = 58 if mt != "58" else 1
+                o = ("add_group", (int(ts_), "int"), [("f", int(mt), ("s", mv)), ("f", other, ("s", f"dup{o[1] % 97}"))], o[2], False)
+                kind = "add_group"
+                classes.add("group-items-sharing-a-value")
+            else:
+                o = ("gtag", (int(ts_), "int"), int(mt), mv)
+                kind = "gtag"
+                classes.add("gtag-from-content")
         if kind in ("set", "setitem"):
             t = mk_tag(o[1])
             v = mk_val(o[2])
